@@ -33,9 +33,79 @@ NO_TRANSFORM: set = set()
 
 STATS = dict(modules=[], float_literals=0, divisions=0, powers=0, imports_rebound=0, functions=0)
 
+# T4: loops that *can* be cut by an invariant (module, function qualname, ordinal of the for-statement in source order).
+# The cut is taken only while a contract has registered a LoopSpec in ACTIVE_CUTS; otherwise the loop runs as written.
+CUTTABLE = {
+    ("eko.kernels.singlet", "eko_iterate", 0),
+    ("eko.kernels.singlet", "eko_perturbative", 0),
+    ("eko.kernels.singlet_qed", "eko_iterate", 1),
+    ("eko.kernels.non_singlet_qed", "exact", 0),
+    ("eko.kernels.singlet", "u_vec", 0),
+    ("eko.kernels.singlet", "u_vec", 1),
+    ("eko.kernels.singlet", "sum_u", 0),
+    ("eko.kernels.singlet", "r_vec", 0),
+    ("eko.kernels.singlet", "r_vec", 1),
+    ("eko.kernels.singlet", "r_vec", 2),
+}
+ACTIVE_CUTS: dict = {}
+
+
+class Poison:
+    """value of a loop-assigned name that the loop contract does not describe: any use is a checker error."""
+
+    def __init__(self, name):
+        self._n = name
+
+    def _bad(self, *a, **k):
+        from .terms import Unsupported
+
+        raise Unsupported(f"loop cut: variable {self._n!r} is assigned in the loop but not described by the loop contract")
+
+    __add__ = __radd__ = __mul__ = __rmul__ = __sub__ = __rsub__ = __truediv__ = __rtruediv__ = __getitem__ = __call__ = __bool__ = __matmul__ = __rmatmul__ = _bad
+
+
+def _vc_loop(key):
+    return ACTIVE_CUTS.get(key)
+
+
+class LoopSpec:
+    """Invariant cut of one loop.  Subclass / instantiate with callables:
+       fresh(phase) -> {name: value}   values of the loop-carried names satisfying the invariant *by construction*
+                                       (phase 'iter': arbitrary iteration; 'exit': after the loop)
+       target()     -> value bound to the loop target in the arbitrary iteration
+       entry(env, iterable)  : obligations 'invariant holds on entry'
+       preserved(env)        : obligations 'invariant holds after the body'
+    """
+
+    def __init__(self, fresh, target, entry, preserved, prefix=None):
+        self.fresh, self.target, self._entry, self._preserved, self._prefix = fresh, target, entry, preserved, prefix
+        self.entered = 0
+
+    def prefix(self, lazy_iter, env):
+        """concrete iterations peeled off before the cut (default: none); lazy_iter() evaluates the loop's iterable"""
+        if self._prefix is None:
+            return ()
+        return self._prefix(lazy_iter, dict(env))
+
+    def entry(self, env, iterable):
+        self.entered += 1
+        self._entry(dict(env), iterable)
+
+    def havoc(self, names, phase="iter"):
+        vals = self.fresh(phase)
+        return tuple(vals[n] if n in vals else Poison(n) for n in names)
+
+    def preserved(self, env):
+        self._preserved(dict(env))
+
+    def exit(self, names):
+        return self.havoc(names, "exit")
+
+
 PRELUDE = (
     "from pyvc.rt import _vcQ, _vcdiv, _vcpow, imag_unit as _vcI, vfloat as float, vcomplex as complex, "
     "vint as int, vround as round\n"
+    "from pyvc.hook import _vc_loop\n"
 )
 
 
@@ -46,13 +116,80 @@ def is_exact(name):
 
 
 class _Tr(ast.NodeTransformer):
-    def __init__(self):
+    def __init__(self, modname=""):
         self.n_float = self.n_div = self.n_pow = self.n_imp = self.n_fun = 0
+        self.modname = modname
+        self.qual = []
+        self.loop_ord = []
+        self.cuts = []
+
+    def visit_ClassDef(self, node):
+        self.qual.append(node.name)
+        self.generic_visit(node)
+        self.qual.pop()
+        return node
 
     def visit_FunctionDef(self, node):
         self.n_fun += 1
+        self.qual.append(node.name)
+        self.loop_ord.append(0)
         self.generic_visit(node)
+        self.loop_ord.pop()
+        self.qual.pop()
         return node
+
+    def visit_For(self, node):
+        if not self.loop_ord:
+            self.generic_visit(node)
+            return node
+        ordinal = self.loop_ord[-1]
+        self.loop_ord[-1] += 1
+        key = (self.modname, ".".join(self.qual), ordinal)
+        self.generic_visit(node)
+        if key not in CUTTABLE:
+            return node
+        for n in ast.walk(node):
+            if isinstance(n, (ast.Break, ast.Continue, ast.Return)) or node.orelse:
+                raise RuntimeError(f"loop {key} cannot be cut (break/continue/return/else)")
+        names = []
+        for n in ast.walk(node):
+            if isinstance(n, ast.Name) and isinstance(n.ctx, ast.Store) and n.id not in names:
+                names.append(n.id)
+        tgt_names = [n.id for n in ast.walk(node.target) if isinstance(n, ast.Name)]
+        carried = [n for n in names if n not in tgt_names]
+        self.cuts.append(key)
+        L = "_vc_L%d" % len(self.cuts)
+        keyexpr = ast.Tuple([ast.Constant(k) for k in key], ast.Load())
+        import copy
+
+        carried_tuple = f"({', '.join(carried)},)" if carried else None
+        carried_names = f"({', '.join(repr(c) for c in carried)},)" if carried else "()"
+        src = f"""
+{L} = _vc_loop(None)
+if {L} is None:
+    pass
+else:
+    for _vc_T in {L}.prefix(lambda: None, locals()):
+        pass
+    {L}.entry(locals(), None)
+    {carried_tuple or '_vc_dummy'} = {L}.havoc({carried_names})
+    _vc_T2 = {L}.target()
+    pass
+    {L}.preserved(locals())
+    {carried_tuple or '_vc_dummy'} = {L}.exit({carried_names})
+"""
+        tmpl = ast.parse(src).body
+        assign, iff = tmpl
+        assign.value.args = [keyexpr]
+        iff.body = [node]
+        pre_for, entry_call, havoc_assign, tgt_assign0, _pass, preserved_call, exit_assign = iff.orelse
+        pre_for.iter.args[0].body = copy.deepcopy(node.iter)          # lambda: ITER (lazy)
+        pre_for.target = copy.deepcopy(node.target)
+        pre_for.body = [copy.deepcopy(b) for b in node.body]
+        tgt_assign = ast.Assign([copy.deepcopy(node.target)], tgt_assign0.value)
+        body = [copy.deepcopy(b) for b in node.body]
+        iff.orelse = [pre_for, entry_call, havoc_assign, tgt_assign] + body + [preserved_call, exit_assign]
+        return [ast.copy_location(assign, node), ast.copy_location(iff, node)]
 
     def visit_Constant(self, node):
         v = node.value
@@ -138,7 +275,7 @@ class _Tr(ast.NodeTransformer):
 
 def transform_source(src, filename, name=""):
     tree = ast.parse(src, filename)
-    tr = _Tr()
+    tr = _Tr(name)
     tree = tr.visit(tree)
     # insert the prelude after the docstring and __future__ imports
     pre = ast.parse(PRELUDE).body
@@ -156,6 +293,7 @@ def transform_source(src, filename, name=""):
     STATS["imports_rebound"] += tr.n_imp
     STATS["functions"] += tr.n_fun
     STATS["modules"].append(name)
+    STATS.setdefault("cuttable_loops", []).extend(tr.cuts)
     return tree
 
 
